@@ -375,8 +375,17 @@ func (r *runner) clientCase(op Op, src map[string]int) (f *vk.Finding) {
 	}
 	// server side accepts everything that arrives
 	st := &state{verdicts: map[string]int{}}
+	inUse := map[string]bool{}
+	for _, n := range used {
+		inUse[n] = true
+	}
 	for _, s := range r.meta.Schemes {
 		st.verdicts[s.Name] = src[s.Name]
+		if !inUse[s.Name] {
+			// a scheme outside the operation's requirement (the generator may still consult its source
+			// when a skipped alternative names it): the neutral answer "no credential for this one"
+			st.verdicts[s.Name] = Skip
+		}
 	}
 	r.st = st
 	m := reflect.ValueOf(r.cli).MethodByName(goOp)
